@@ -126,6 +126,7 @@ SameValue(t, a, b) ==
          Len(a) = Len(b) /\
          SortEncs([i \in 1..Len(a) |-> EncField([t.sub[1] EXCEPT !.p = NoParams], a[i])]) =
          SortEncs([i \in 1..Len(b) |-> EncField([t.sub[1] EXCEPT !.p = NoParams], b[i])])
+    [] t.k = "seqof" -> Len(a) = Len(b) /\ \A i \in 1..Len(a) : SameValue([t.sub[1] EXCEPT !.p = NoParams], a[i], b[i])
     [] OTHER -> a = b
 EncInjective(t, vals) ==
   \A a \in vals, b \in vals : Enc(t, a) = Enc(t, b) => SameValue(t, a, b)
